@@ -601,7 +601,9 @@ class Manager(metaclass=Singleton):
         if units == "nm":
             # zero is interpretted as zero energy
             try:
-                ret = numpy.zeros(val.shape, dtype=val.dtype)
+                # (integer arrays must not truncate the reciprocal values)
+                ret = numpy.zeros(val.shape,
+                            dtype=numpy.result_type(val.dtype, numpy.float64))
                 ret[val!=0.0] = 1.0/val[val!=0]
                 return ret/cfact
             except:            
@@ -630,7 +632,9 @@ class Manager(metaclass=Singleton):
         if units == "nm":
             # zero is interpretted as zero energy
             try:
-                ret = numpy.zeros(val.shape, dtype=val.dtype)
+                # (integer arrays must not truncate the reciprocal values)
+                ret = numpy.zeros(val.shape,
+                            dtype=numpy.result_type(val.dtype, numpy.float64))
                 ret[val!=0.0] = 1.0/val[val!=0]
                 return ret/cfact
             except:            
